@@ -54,10 +54,22 @@ def betweenCore (edges : List F) (s e : Nat) (t0 t1 : F) : Option (List (F × F)
       some (unflat ([tStart] ++ mid ++ [tEnd]))
     | _, _ => none
 
-def betweenIdx (ivs : List (F × F)) (t0 t1 : F) : Option (List (F × F)) :=
-  betweenCore (flat ivs) (digitize (flat ivs) t0) (digitize (flat ivs) t1) t0 t1
-
 end order
+
+section order2
+variable [LE F] [LT F] [DecidableLE F] [DecidableLT F]
+
+/-- `numpy.digitize(t, edges, right=True)` for non-decreasing `edges`: the number of edges `< t`. -/
+def digitizeR (edges : List F) (t : F) : Nat := edges.countP (fun e => decide (e < t))
+
+/-- `Livetime.get_uptime_intervals_between(t_start, t_end)`: an empty (or reversed) time range has
+no on-time; the lower bound is located with `digitize` (edges `≤ t_start`), the excluded upper
+bound with `digitize(right=True)` (edges `< t_end`). -/
+def betweenIdx (ivs : List (F × F)) (t0 t1 : F) : Option (List (F × F)) :=
+  if t1 ≤ t0 then some []
+  else betweenCore (flat ivs) (digitize (flat ivs) t0) (digitizeR (flat ivs) t1) t0 t1
+
+end order2
 
 section spec
 variable [LE F] [LT F] [DecidableLE F] [DecidableLT F]
@@ -66,7 +78,7 @@ variable [LE F] [LT F] [DecidableLE F] [DecidableLT F]
 clip the outer edges.  `Props/C14` proves this is the set intersection; the correspondence
 check compares it (and `betweenIdx`) with the implementation bit by bit. -/
 def betweenSpec (ivs : List (F × F)) (t0 t1 : F) : List (F × F) :=
-  (ivs.filter (fun p => decide (t0 < p.2) && decide (p.1 ≤ t1))).map
+  (ivs.filter (fun p => decide (t0 < p.2) && decide (p.1 < t1))).map
     (fun p => ((if p.1 ≤ t0 then t0 else p.1), (if t1 < p.2 then t1 else p.2)))
 
 end spec
@@ -122,8 +134,10 @@ def integrity [LE F] [DecidableLE F] : List F → Bool
 
 end Livetime
 
-/-! ### The `Livetime` object: the interval array can be replaced through the public setter;
-every query reads the array the object currently holds (the class keeps no derived state). -/
+/-! ### The `Livetime` object: the interval array can be replaced through the public setter
+(which validates first and keeps the old array when it rejects); every query reads the array the
+object currently holds (the class keeps no derived state).  Plus the two composite queries
+`draw_ontimes(t_min, t_max)` and `get_data_subset`. -/
 namespace Livetime
 
 inductive Op (F : Type) where
@@ -131,15 +145,38 @@ inductive Op (F : Type) where
   | qIsOn (t : F)
   | qBetween (t0 t1 : F)
   | qUpto (t : F)
-  | qDraw (u : F)
+  | qDraw (tmin tmax : Option F) (u : F)
 
 inductive Ans (F : Type) where
   | none
+  | err                                  -- the setter raised `ValueError`, state unchanged
   | bool (b : Bool)
   | ivs (r : Option (List (F × F)))
   | val (x : Option F)
 
-variable {F : Type} [LE F] [DecidableLE F] [Add F] [Sub F] [Mul F] [OfNat F 0]
+variable {F : Type} [LE F] [LT F] [DecidableLE F] [DecidableLT F] [Add F] [Sub F] [Mul F] [OfNat F 0]
+
+/-- `draw_ontimes(rss, size, t_min, t_max)` for one deviate: without bounds the inverse CDF over the
+whole live time; otherwise a missing bound defaults to `time_start` / `time_stop`, the intervals are
+restricted with `get_uptime_intervals_between` and the inverse CDF runs on the result. -/
+def drawWin (ivs : List (F × F)) (tmin tmax : Option F) (u : F) : Option F :=
+  match tmin, tmax with
+  | none, none => drawOn ivs u
+  | _, _ =>
+    match ivs.head?, ivs.getLast? with
+    | some f, some l =>
+      match betweenIdx ivs (tmin.getD f.1) (tmax.getD l.2) with
+      | some r => drawOn r u
+      | none => none
+    | _, _ => none            -- `time_start` of a Livetime without intervals: IndexError
+
+/-- `get_data_subset`: event mask, window-restricted intervals (which the `Livetime` constructor
+validates again), and their integrated live time. `none` = an exception. -/
+def dataSubset (ivs : List (F × F)) (times : List F) (t0 t1 : F) :
+    Option (List Bool × List (F × F) × F) :=
+  match betweenIdx ivs t0 t1 with
+  | none => none
+  | some r => if integrity (flat r) then some (subsetMask times t0 t1, r, livetimeSeq r) else none
 
 /-- the stateless answer to a query on a given interval list -/
 def answer (ivs : List (F × F)) : Op F → Ans F
@@ -147,12 +184,12 @@ def answer (ivs : List (F × F)) : Op F → Ans F
   | .qIsOn t => .bool (isOn ivs t)
   | .qBetween t0 t1 => .ivs (betweenIdx ivs t0 t1)
   | .qUpto t => .val (upto ivs t)
-  | .qDraw u => .val (drawOn ivs u)
+  | .qDraw tmin tmax u => .val (drawWin ivs tmin tmax u)
 
 /-- one call on the object: the state is the interval list it holds -/
 def objStep (held : List (F × F)) (op : Op F) : List (F × F) × Ans F :=
   match op with
-  | .setIvs ivs => (ivs, .none)
+  | .setIvs ivs => if integrity (flat ivs) then (ivs, .none) else (held, .err)
   | q => (held, answer held q)
 
 def objRun (held : List (F × F)) : List (Op F) → List (F × F) × List (Ans F)
@@ -162,10 +199,10 @@ def objRun (held : List (F × F)) : List (Op F) → List (F × F) × List (Ans F
     let (h'', as) := objRun h' ops
     (h'', a :: as)
 
-/-- the interval list in force after a history: the last one assigned, else the initial one -/
+/-- the interval list in force after a history: the last *accepted* one, else the initial one -/
 def lastSet (held : List (F × F)) : List (Op F) → List (F × F)
   | [] => held
-  | .setIvs ivs :: ops => lastSet ivs ops
+  | .setIvs ivs :: ops => lastSet (if integrity (flat ivs) then ivs else held) ops
   | _ :: ops => lastSet held ops
 
 end Livetime
